@@ -304,6 +304,34 @@ def limits(col):
                       ['fixed', 4099]):
             check_full(col, {'fmt': fmt, 'params': p, 'schedule': sched,
                              'queries': None}, sub)
+    # the size-carrying entry last (or alone) in its table, and a cut at
+    # every byte of that entry; small odd chunk sizes on the same images
+    from vcheck import chunking
+    for before in (0, 1, 2, 15, 47):
+        p = dict(size=4321 + before, meta_before=before, meta_after=0)
+        img = imggen.build('vhdx', p)
+        n = len(img.data)
+        start = img.params['meta_offset'] + 32 + 32 * before
+        for c in range(start - 2, start + 35):
+            check_full(col, {'fmt': 'vhdx', 'params': p,
+                             'schedule': chunking.from_cuts(n, [c]),
+                             'queries': None}, sub)
+        for k in (17, 31, 513):
+            check_full(col, {'fmt': 'vhdx', 'params': p,
+                             'schedule': ['fixed', k], 'queries': None}, sub)
+    # createType (and the extent line) far down a descriptor of several
+    # sectors: the declared size is still the header's capacity
+    base = list(imggen.VMDK_DEFAULT_LINES)
+    filler = ['# filler line %03d ..............................' % i
+              for i in range(200)]
+    for k in (12, 22, 72, 180):
+        for footer in (False, True):
+            p = dict(capacity=1000 + k, footer=footer,
+                     lines=base[:1] + filler[:k] + base[1:])
+            n = len(imggen.build('vmdk', p).data)
+            for sched in (['fixed', 512], ['sizes', [n]], ['fixed', 4099]):
+                check_full(col, {'fmt': 'vmdk', 'params': p,
+                                 'schedule': sched, 'queries': None}, sub)
     col.exhaustive[sub] = True
 
 
